@@ -832,12 +832,22 @@ class HexaryTrie:
     @contextlib.contextmanager
     def squash_changes(self):
         scratch_db = ScratchDB(self.db)
-        with scratch_db.batch_commit(do_deletes=self.is_pruning):
-            Trie = type(self)
-            memory_trie = Trie(
-                scratch_db, self.root_hash, prune=True, ref_count=self._ref_count
-            )
-            yield memory_trie
+        if self.is_pruning:
+            # The batch shares (and modifies) this trie's reference counts, so keep
+            # a copy to restore if the batch is abandoned
+            ref_count_backup = self._ref_count.copy()
+        try:
+            with scratch_db.batch_commit(do_deletes=self.is_pruning):
+                Trie = type(self)
+                memory_trie = Trie(
+                    scratch_db, self.root_hash, prune=True, ref_count=self._ref_count
+                )
+                yield memory_trie
+        except BaseException:
+            if self.is_pruning:
+                self._ref_count.clear()
+                self._ref_count.update(ref_count_backup)
+            raise
 
         if self.root_hash != memory_trie.root_hash:
             try:
